@@ -7,7 +7,7 @@
    avoids inf/inf.  Statement only; proof in Proofs/BetaFinalFl.v.                                                        *)
 From Coq Require Import ZArith Bool Reals.
 From Flocq Require Import Core.Core IEEE754.BinarySingleNaN.
-From RD Require Import Proofs.BetaFinalFl Proofs.TriangularFl Gen.FlProg.
+From RD Require Import Proofs.BetaFinalFl Proofs.TriangularFl Proofs.PertFl Gen.FlProg.
 Open Scope R_scope.
 
 Theorem C03_beta_final_def : forall prec emax (Hp : Prec_gt_0 prec) (Hpe : Prec_lt_emax prec emax) switched (b w : binary_float prec emax),
@@ -65,8 +65,33 @@ Example C03_triangular_binary64 : forall (mn md mx f : binary_float 53 1024),
   is_finite (triangular_fl 53 1024 eq_refl eq_refl mn md mx f) = true.
 Proof. intros mn md mx f A B C D E F G H. apply (C03_triangular_fl_finite 53 1024 eq_refl eq_refl mn md mx f 510); try assumption; discriminate. Qed.
 
+(* ---- Pert::sample (pert.rs:166: beta * range + min) with the constructor's range = max - min (pert.rs:152), both read off /repo on
+   every run.  For finite min <= max of magnitude <= 2^k (k + 2 < emax) and every finite Beta draw b in [0,1] (C03_beta_final_in_unit):
+   the sample is a finite float, >= min exactly, and <= fl(min + fl(max - min)) <= max + (u + u^2)(max - min) + u |max|  - "inside
+   [min, max] up to 4 ulp of the larger bound" (with M = max(|min|, |max|) the excess is at most (3u + 2u^2) M < 4 u M). *)
+Theorem C03_pert_source : forall prec emax (Hp : Prec_gt_0 prec) (Hpe : Prec_lt_emax prec emax) (b range mn mx : binary_float prec emax),
+  src_pert_sample prec emax Hp Hpe b range mn = pert_sample_fl prec emax Hp Hpe b range mn /\
+  src_pert_range prec emax Hp Hpe mx mn = pert_range_fl prec emax Hp Hpe mx mn /\
+  pert_sample_fl prec emax Hp Hpe b range mn = Bplus mode_NE (Bmult mode_NE b range) mn /\
+  pert_range_fl prec emax Hp Hpe mx mn = Bminus mode_NE mx mn.
+Proof. intros. repeat split; reflexivity. Qed.
+
+Theorem C03_pert_fl_support : forall prec emax (Hp : Prec_gt_0 prec) (Hpe : Prec_lt_emax prec emax) (mn mx b : binary_float prec emax) (k : Z),
+  (0 <= k)%Z -> (k + 2 < emax)%Z ->
+  is_finite mn = true -> is_finite mx = true -> is_finite b = true ->
+  B2R mn <= B2R mx -> Rabs (B2R mn) <= bpow radix2 k -> Rabs (B2R mx) <= bpow radix2 k -> 0 <= B2R b <= 1 ->
+  let r := pert_range_fl prec emax Hp Hpe mx mn in
+  let rnd := round radix2 (SpecFloat.fexp prec emax) (round_mode mode_NE) in
+  let u := bpow radix2 (- prec) in
+  is_finite (pert_sample_fl prec emax Hp Hpe b r mn) = true /\
+  B2R mn <= B2R (pert_sample_fl prec emax Hp Hpe b r mn) <= rnd (B2R r + B2R mn) /\
+  rnd (B2R r + B2R mn) <= B2R mx + (u + u * u) * (B2R mx - B2R mn) + u * Rabs (B2R mx).
+Proof. exact pert_fl_support. Qed.
+
 Print Assumptions C03_beta_final_def.
 Print Assumptions C03_beta_final_in_unit.
 Print Assumptions C03_fl_source.
 Print Assumptions C03_triangular_source.
 Print Assumptions C03_triangular_fl_finite.
+Print Assumptions C03_pert_source.
+Print Assumptions C03_pert_fl_support.
